@@ -339,7 +339,7 @@ func (fg *FuncGen) call(v *ssa.Call, c *ssa.CallCommon, instr ssa.Instruction) {
 		}
 		fg.callsExternalUnmodelled[key] = true
 		// effects of a function without any contract are unknown: not acceptable on an API path (C06, C07)
-		fg.obl("ext", "ext."+smtIdent(key), v.Pos(), []string{"C06", "C07"}, "false", "call to "+key+", which has no contract (its effects on shared state are unknown)")
+		fg.obl("ext", "ext."+smtIdent(key), v.Pos(), []string{"C06", "C07", "C15"}, "false", "call to "+key+", which has no contract (its effects on shared state are unknown)")
 	}
 	fg.siteAsserts(v, callee, args)
 	pre := fg.st.Copy()
